@@ -19,12 +19,12 @@ import (
 
 // Exec is the record of one complete execution.
 type Exec struct {
-	Choices []int    // option index taken at each controller step
-	NOpts   []int    // number of options at each step
-	Trace   []string // the released option at each step
-	FPs     []uint64 // fingerprint of every quiescent state
-	Res     any      // scenario-specific result
-	Viol    []Viol
+	Choices  []int    // option index taken at each controller step
+	NOpts    []int    // number of options at each step
+	Trace    []string // the released option at each step
+	FPs      []uint64 // fingerprint of every quiescent state
+	Res      any      // scenario-specific result
+	Viol     []Viol
 	Diverged string
 	Panic    string
 }
